@@ -87,6 +87,29 @@ let run toks =
     let s = bytes_of_hex s and d = bytes_of_hex d in
     Printf.sprintf "c=%s i=%s" (hex_of_bytes (erase_all s d)) (hex_of_bytes (erase_all_inplace s d))
   | ["pad"; s; len; c] -> hex_of_bytes (pad (bytes_of_hex s) (nat_of_int (int_of_string len)) (byte_of c))
+  | ["huge"; n; h; t; m; d; padlen] ->
+    (* spec-level case kind: the byte string has n bytes = head, zeros, tail.  The extracted functions take byte lists, so
+       they are evaluated on the two END WINDOWS (head followed by zeros / zeros followed by tail, longer than every other
+       argument); that the answer for the whole string is the same follows from C19_starts_ends_contains (prefix / suffix
+       characterisation) and from the definitions of compare/equal/less_icase, trim_left/right and pad, which consume
+       their argument from one end and stop inside the window.  Sizes are added back arithmetically. *)
+    let n = int_of_string n and h = bytes_of_hex h and t = bytes_of_hex t and m = bytes_of_hex m and d = bytes_of_hex d in
+    let padlen = int_of_string padlen in
+    let zeros k = List.init k (fun _ -> N0) in
+    let k = List.length m + padlen + 2 in
+    let front = h @ zeros k and back = zeros k @ t in
+    let front1 = List.tl front in
+    let z = int_of_z in
+    let tl = trim_left (h @ [N0]) d and tr = trim_right (N0 :: t) d in
+    let rl = List.length h + 1 - List.length tl and rr = List.length t + 1 - List.length tr in
+    Printf.sprintf "sw=%s swi=%s ew=%s ewi=%s rsw=%s rswi=%s rew=%s rewi=%s cmp=%d eq=%s lt=%s rcmp=%d req=%s rlt=%s scmp=%d,%d seq=%s slt=%s,%s tl=%d:%d tr=0:%d t=%d:%d pad=%s"
+      (b2s (starts_with front m)) (b2s (starts_with_icase front m)) (b2s (ends_with back m)) (b2s (ends_with_icase back m))
+      (b2s (starts_with m front)) (b2s (starts_with_icase m front)) (b2s (ends_with m back)) (b2s (ends_with_icase m back))
+      (z (compare_icase front m)) (b2s (equal_icase front m)) (b2s (less_icase front m))
+      (z (compare_icase m front)) (b2s (equal_icase m front)) (b2s (less_icase m front))
+      (z (compare_icase front front1)) (z (compare_icase front1 front)) (b2s (equal_icase front front1))
+      (b2s (less_icase front front1)) (b2s (less_icase front1 front))
+      rl (n - rl) (n - rr) rl (n - rl - rr) (hex_of_bytes (pad front (nat_of_int padlen) (n_of_int 46)))
   | ["lev"; a; b] ->
     let a = bytes_of_hex a and b = bytes_of_hex b in
     let d = levenshtein a b and di = levenshtein_icase a b in
